@@ -181,7 +181,7 @@ GhostNext(gh, pre, rec, post) ==
       k22 == CoinsAdd(gh.k2, [rd \in {rd \in {u[3] : u \in upd} : ~IsZero(inc(rd))} |-> inc(rd)])
       \* K9: pending rewards of v were withdrawn in this step while v recorded no delegator shares
       strand == {v \in DOMAIN pre.env.vals : HasMod(pre, v) /\ ~IsEmptyMap(Pending(pre, v)) /\ v \in DOMAIN post.env.vals /\ IsEmptyMap(Pending(post, v))
-                                             /\ IsEmptyMap(Info(pre, v).dshares)
+                                             /\ (IsEmptyMap(Info(pre, v).dshares) \/ PoolWeightless(pre, v))
                                              /\ rec.ev \notin {"Accrue", "AccrueFees"}}
       stuck0 == IF rec.ev = "EndBlock" THEN [k \in DOMAIN gh.stuck \ {BondDenom} |-> gh.stuck[k]] ELSE gh.stuck     \* stray staking coins are burned
       stuck2 == FoldSet(LAMBDA v, acc : CoinsAdd(acc, Pending(pre, v)), stuck0, strand)
@@ -234,10 +234,12 @@ C07_Unb_Step(pre, rec, post, gh) ==
 
 -----------------------------------------------------------------------------
 (* C08 slash callback is total *)
-C08_Step(pre, rec, post) ==
+C08_Step(pre, rec, post, gh) ==
   IF ~(SlashValid(rec) /\ ValExists(pre, rec.args.v)) THEN {}
-  ELSE Check("C08", rec.ev # "SlashHook" \/ (rec.res.ok /\ ~rec.res.panic),
-             "slash callback failed: " \o rec.res.err)
+  ELSE CheckK("C08", rec.ev # "SlashHook" \/ (rec.res.ok /\ ~rec.res.panic),
+              \* the callback claims rewards for the destination positions of pending redelegations: a short pool (K1, K2) makes it fail
+              IF rec.res.errc = "funds" THEN (IF gh.slashed THEN "K1" ELSE IF ~IsEmptyMap(gh.k2) THEN "K2" ELSE "") ELSE "",
+              "slash callback failed: " \o rec.res.err)
        \cup Check("C08", post.flag, "slash callback did not schedule a rebalance")
 
 -----------------------------------------------------------------------------
@@ -272,20 +274,22 @@ C06_Step(pre, rec, post, gh) ==
 \* entry priced at the destination's share price at that moment: tokens of the validator (after the bonded slash) divided by
 \* its delegator shares still recorded.  sh: position -> shares left (rational), ds: <<validator, denom>> -> delegator shares
 \* left (rational).  Exact rationals; nothing of the code's rounding is assumed.
-RECURSIVE ExpectRedSlash(_, _, _, _, _, _)
-ExpectRedSlash(post, red, order, f, sh, ds) ==
+\* Redelegations with the same delegator, denom, source, destination and completion time are one pending entry (their
+\* amounts add up), as in the module's own record.
+RECURSIVE ExpectRedSlash(_, _, _, _, _)
+ExpectRedSlash(post, order, f, sh, ds) ==      \* order: sequence of [d, a, dst, amt]
   IF order = <<>> THEN sh
   ELSE
-    LET x == red[Head(order)]
+    LET x == Head(order)
         k == <<x.d, x.dst, x.a>>
         vk == <<x.dst, x.a>>
-    IN  IF k \notin DOMAIN sh \/ x.a \notin DOMAIN post.assets THEN ExpectRedSlash(post, red, Tail(order), f, sh, ds)
+    IN  IF k \notin DOMAIN sh \/ x.a \notin DOMAIN post.assets THEN ExpectRedSlash(post, Tail(order), f, sh, ds)
         ELSE
           LET vt == ValTokRat(post, x.dst, x.a)
               want == RInt(TruncInt(DMulInt(f, x.amt)))
               byPrice == IF IsZero(vt[1]) THEN sh[k] ELSE RMul(want, <<BMul(ds[vk][1], vt[2]), BMul(ds[vk][2], vt[1])>>)
               take == IF RLt(sh[k], byPrice) THEN sh[k] ELSE byPrice
-          IN  ExpectRedSlash(post, red, Tail(order), f, [sh EXCEPT ![k] = RSub(@, take)], [ds EXCEPT ![vk] = RSub(@, take)])
+          IN  ExpectRedSlash(post, Tail(order), f, [sh EXCEPT ![k] = RSub(@, take)], [ds EXCEPT ![vk] = RSub(@, take)])
 
 MergedRecord(gh, k) ==      \* K4: two pending redelegations of one delegator into one destination, due at the same time, from different sources
   \E i, j \in DOMAIN gh.red : gh.red[i].d = k[1] /\ gh.red[i].dst = k[2] /\ gh.red[i].a = k[3] /\ gh.red[j].d = k[1] /\ gh.red[j].dst = k[2]
@@ -296,19 +300,23 @@ C07_Red_Step(pre, rec, post, gh) ==
   ELSE
     LET v == rec.args.v  f == SlashFraction(rec)
         hit == {i \in DOMAIN gh.red : gh.red[i].src = v /\ gh.red[i].due >= pre.now}
-        order == SortBy(hit, LAMBDA i : <<gh.red[i].due, DenIdx(gh.red[i].a), ValIdx(gh.red[i].dst), DelIdx(gh.red[i].d), i>>)
+        keys == {<<gh.red[i].due, gh.red[i].a, gh.red[i].dst, gh.red[i].d>> : i \in hit}
+        korder == SortBy(keys, LAMBDA q : <<q[1], DenIdx(q[2]), ValIdx(q[3]), DelIdx(q[4])>>)
+        order == [n \in DOMAIN korder |->
+                    [d |-> korder[n][4], a |-> korder[n][2], dst |-> korder[n][3],
+                     amt |-> BSum({i \in hit : <<gh.red[i].due, gh.red[i].a, gh.red[i].dst, gh.red[i].d>> = korder[n]}, LAMBDA i : gh.red[i].amt)]]
         targets == {<<gh.red[i].d, gh.red[i].dst, gh.red[i].a>> : i \in hit}
         others == {k \in DOMAIN pre.dels : k \notin targets}
         live == {k \in targets : k \in DOMAIN pre.dels}
         sh0 == [k \in live |-> Rat(pre.dels[k].shares, "1")]
         ds0 == [vk \in {<<k[2], k[3]>> : k \in live} |-> Rat(Get(Info(pre, vk[1]).dshares, vk[2]), "1")]
-        expect == ExpectRedSlash(post, gh.red, order, f, sh0, ds0)
+        expect == ExpectRedSlash(post, order, f, sh0, ds0)
         got(k) == IF k \in DOMAIN post.dels THEN Rat(post.dels[k].shares, "1") ELSE RZero
         \* difference in shares, valued in tokens at the destination's price before the removal
         errTok(k) == LET d == RAbs(RSub(got(k), expect[k]))
                          dsPre == Get(Info(pre, k[2]).dshares, k[3])
                      IN  IF IsZero(dsPre) \/ k[3] \notin DOMAIN post.assets THEN RZero ELSE RMul(<<d[1], BMul(d[2], dsPre)>>, ValTokRat(post, k[2], k[3]))
-        want(k) == BSum({i \in hit : <<gh.red[i].d, gh.red[i].dst, gh.red[i].a>> = k}, LAMBDA i : TruncInt(DMulInt(f, gh.red[i].amt)))
+        want(k) == BSum({n \in DOMAIN order : <<order[n].d, order[n].dst, order[n].a>> = k}, LAMBDA n : TruncInt(DMulInt(f, order[n].amt)))
         tol(k) == BMul(BFromInt(Cardinality(hit)), TolMax(pre, post, k[2], k[3], want(k)))
     IN  UNION {Check("C07", k \notin DOMAIN post.dels \/ post.dels[k].shares = pre.dels[k].shares,
                      "slash of " \o v \o " changed the shares of position " \o ToString(k) \o ", which is not the destination of a pending redelegation out of it") : k \in others}
@@ -480,14 +488,28 @@ C14_Step(pre, rec, post) ==
 
 \* a weight change (decay or governance) settles every validator at the old weight and leaves a snapshot
 WeightChanged(pre, post) == {a \in DOMAIN pre.assets \cap DOMAIN post.assets : pre.assets[a].weight # post.assets[a].weight}
+\* the state in which end-of-block changes weights: after the maturity sweeps, asset initialisation and the take rate
+BeforeDecay(pre, rec) ==
+  IF rec.ev # "EndBlock" THEN pre
+  ELSE LET r2 == CompleteUnbondings(CompleteRedelegations(pre))
+           r4 == TakeRate(InitAssets(r2.s))
+       IN  r4.s
+HistClose(h1, h2) == DOMAIN h1 = DOMAIN h2 /\ \A k \in DOMAIN h1 : BLe(BAbs(BSub(h1[k], h2[k])), "2")
 C14_Settle(pre, rec, post) ==
-  IF ~(rec.ev \in {"EndBlock", "GovUpdate"} /\ rec.res.ok) THEN {}
-  ELSE UNION {UNION {
+  IF ~(rec.ev \in {"EndBlock", "GovUpdate"} /\ rec.res.ok) \/ WeightChanged(pre, post) = {} THEN {}
+  ELSE
+    LET mid == BeforeDecay(pre, rec)
+    IN  UNION {UNION {
          Check("C14", <<a, v, pre.height>> \in DOMAIN post.snaps /\ post.snaps[<<a, v, pre.height>>].prevW = pre.assets[a].weight,
                "weight of " \o a \o " changed without a snapshot of the previous weight for validator " \o v)
-         \cup Check("C14", ~HasMod(pre, v) \/ IsEmptyMap(Pending(pre, v)) \/ IsEmptyMap(Info(pre, v).dshares) \/ PoolEligible(pre, Info(pre, v)) = {}
-                           \/ Info(post, v).hist # Info(pre, v).hist,
-               "weight of " \o a \o " changed while rewards for " \o v \o " were pending in the distribution module, and they were not settled at the old weight")
+         \cup Check("C14", ~HasMod(pre, v) \/ IsEmptyMap(Pending(pre, v)) \/ IsEmptyMap(Pending(post, v)),
+               "weight of " \o a \o " changed while rewards for " \o v \o " were pending in the distribution module, and they were not settled")
+         \* the pending rewards are indexed with the weights in force BEFORE the change (the rebalance that follows may settle
+         \* a validator again, but nothing is pending any more by then)
+         \cup (IF HasMod(pre, v) /\ ~IsEmptyMap(Pending(pre, v)) /\ ~CVRPanics(mid, v) /\ v \in DOMAIN mid.vals
+               THEN Check("C14", HistClose(Info(post, v).hist, CVR(mid, v).vals[v].hist),
+                          "weight of " \o a \o " changed: the rewards pending for " \o v \o " were not indexed at the previous weights")
+               ELSE {})
          : v \in DOMAIN pre.vals \cap DOMAIN post.vals} : a \in WeightChanged(pre, post)}
 
 -----------------------------------------------------------------------------
@@ -554,8 +576,18 @@ C16_Step(pre, rec, post) ==
 
 -----------------------------------------------------------------------------
 (* C17 end-of-block never fails *)
+\* K10: the compounded change rate^n of a reward weight is computed before the result is clamped to the weight range; with a
+\* rate above one and many elapsed intervals it exceeds the 315 bits of the fixed-point type and the end blocker panics
+DecayOverflows(pre, rec) ==
+  LET mid == BeforeDecay(pre, rec)
+  IN  \E a \in DOMAIN mid.assets :
+        LET x == mid.assets[a] IN
+          DecayDue(x, mid.now) /\ LET pw == DPow(x.rate, (mid.now - x.lastChg) \div x.chgInt) IN Overflow(pw) \/ Overflow(DMul(x.weight, pw))
 C17_Step(pre, rec, post) ==
-  IF rec.ev = "EndBlock" THEN Check("C17", rec.res.ok /\ ~rec.res.panic, "end-of-block failed: " \o rec.res.err) ELSE {}
+  IF rec.ev = "EndBlock"
+  THEN CheckK("C17", rec.res.ok /\ ~rec.res.panic, IF rec.res.errc = "overflow" /\ DecayOverflows(pre, rec) THEN "K10" ELSE "",
+              "end-of-block failed: " \o rec.res.err)
+  ELSE {}
 
 -----------------------------------------------------------------------------
 (* C10 voting power / C11 virtual tokens, relational on the recorded staking view *)
@@ -676,7 +708,7 @@ JudgeState(s, rec, gh) ==
 Judge(pre, rec, post, gh, gh2) ==
   JudgeState(post, rec, gh2)
   \cup C02_Step(pre, rec, post, gh) \cup C07_Unb_Step(pre, rec, post, gh) \cup C07_Red_Step(pre, rec, post, gh)
-  \cup C08_Step(pre, rec, post) \cup C06_Step(pre, rec, post, gh) \cup C04_Step(pre, rec, post)
+  \cup C08_Step(pre, rec, post, gh) \cup C06_Step(pre, rec, post, gh) \cup C04_Step(pre, rec, post)
   \cup C09_Step(pre, rec, post) \cup C14_Step(pre, rec, post) \cup C14_Settle(pre, rec, post)
   \cup C15_Step(pre, rec, post, gh) \cup C16_Step(pre, rec, post) \cup C17_Step(pre, rec, post)
   \cup C10_Step(pre, rec, post) \cup C11_Step(pre, rec, post, gh, gh2) \cup C18_Step(pre, rec, post)
